@@ -47,29 +47,17 @@ fn run(which: usize, d: &Doc, e: &Expr) -> Result<Obs, String> {
     catch(|| if which == 0 { run_full_doc(d, e) } else { run_generic_doc(d, e) })
 }
 
-/// Feature of a value for signatures (never the value itself).
+/// Feature of a value for signatures (never the value itself): the root type, plus —
+/// only when the value is a scalar — what is special about it. Content features of
+/// nested values are deliberately left out: one defect would otherwise be spread over
+/// every combination of them (the smallest failing value is kept as the example).
 fn feature(v: &V) -> String {
-    fn has(v: &V, f: &dyn Fn(&V) -> bool) -> bool {
-        f(v) || match v {
-            V::Arr(a) => a.iter().any(|x| has(x, f)),
-            V::Obj(o) => o.iter().any(|(_, x)| has(x, f)),
-            _ => false,
-        }
+    match v {
+        V::Num(f, t) if f.abs() >= 9.007199254740992e15 || t.contains('e') || t.contains('E') => "number(big)".into(),
+        V::Str(s) if s.contains('\u{0}') => "string(nul-char)".into(),
+        V::Str(s) if !s.is_ascii() => "string(non-ascii)".into(),
+        _ => v.type_name().into(),
     }
-    let mut fs: Vec<&str> = vec![v.type_name()];
-    if has(v, &|x| matches!(x, V::Num(f, t) if f.abs() >= 9.007199254740992e15 || t.contains('e') || t.contains('E'))) {
-        fs.push("big-number");
-    }
-    if has(v, &|x| matches!(x, V::Str(s) if s.contains('\u{0}'))) {
-        fs.push("nul-char");
-    }
-    if has(v, &|x| matches!(x, V::Str(s) if !s.is_ascii())) {
-        fs.push("non-ascii");
-    }
-    if has(v, &|x| matches!(x, V::Obj(o) if o.iter().any(|(k, _)| k.is_empty()))) {
-        fs.push("empty-key");
-    }
-    fs.join("+")
 }
 
 struct Case<'a> {
@@ -372,15 +360,28 @@ fn percent_decode(s: &str) -> Result<Vec<u8>, String> {
     Ok(out)
 }
 
-fn str_feature(s: &str) -> String {
-    let mut f = vec![format!("len%3={}", s.len() % 3)];
-    if s.contains('\u{0}') {
-        f.push("nul-char".into());
+/// Class of the input byte at which the decoded form of `enc` first departs from `s`
+/// (the minimal feature of an @uri failure).
+fn uri_divergence(s: &str, enc: &str) -> &'static str {
+    // decode as far as the own decoder accepts
+    let mut good = enc.len();
+    while good > 0 && percent_decode(&enc[..good]).is_err() {
+        good -= 1;
+        while good > 0 && !enc.is_char_boundary(good) {
+            good -= 1;
+        }
     }
-    if !s.is_ascii() {
-        f.push("non-ascii".into());
+    let dec = percent_decode(&enc[..good]).unwrap_or_default();
+    let b = s.as_bytes();
+    let i = dec.iter().zip(b).position(|(x, y)| x != y).unwrap_or(dec.len().min(b.len()));
+    match b.get(i) {
+        None => "after-end-of-input",
+        Some(b'%') => "percent-sign",
+        Some(0) => "nul-byte",
+        Some(c) if *c >= 0x80 => "non-ascii-byte",
+        Some(c) if c.is_ascii_alphanumeric() || matches!(c, b'-' | b'.' | b'_' | b'~') => "unreserved-byte",
+        Some(_) => "reserved-ascii-byte",
     }
-    f.join("+")
 }
 
 fn check_string(s: &str, rep: &mut Report) {
@@ -393,7 +394,7 @@ fn check_string(s: &str, rep: &mut Report) {
         let ev = EVALUATORS[which];
         if let Some(g) = one(&c, &d, which, "@base64|@base64d", "@base64|@base64d", rep) {
             if !veq(&g, &v) {
-                rep.fail(&format!("@base64|@base64d:{ev}:value-differs:{}", str_feature(s)), text.len(), || {
+                rep.fail(&format!("@base64|@base64d:{ev}:value-differs:len%3={}", s.len() % 3), text.len(), || {
                     let mut j = c.json(which, "@base64|@base64d");
                     j["got"] = json!(g.to_json());
                     j
@@ -407,12 +408,12 @@ fn check_string(s: &str, rep: &mut Report) {
             };
             match percent_decode(enc) {
                 Ok(bytes) if bytes == s.as_bytes() => {}
-                Ok(_) => rep.fail(&format!("@uri:{ev}:decodes-to-different-bytes:{}", str_feature(s)), text.len(), || {
+                Ok(_) => rep.fail(&format!("@uri:{ev}:decodes-to-different-bytes:at-{}", uri_divergence(s, enc)), text.len(), || {
                     let mut j = c.json(which, "@uri");
                     j["encoded"] = json!(enc);
                     j
                 }),
-                Err(e) => rep.fail(&format!("@uri:{ev}:not-percent-encoding:{}", str_feature(s)), text.len(), || {
+                Err(e) => rep.fail(&format!("@uri:{ev}:not-percent-encoding:at-{}", uri_divergence(s, enc)), text.len(), || {
                     let mut j = c.json(which, "@uri");
                     j["encoded"] = json!(enc);
                     j["decoder"] = json!(e);
